@@ -24,6 +24,7 @@ import hashlib
 import json
 import multiprocessing
 import os
+import re
 import sqlite3
 import time
 
@@ -35,8 +36,9 @@ from mc.lib import faults, records
 ID = 'C20'
 LEVEL = 'model_checking'
 RULE = (
-    'Phase 1: BFS over histories of real step executions from one loaded '
-    'dataset (two gap-free stretches, four storms); transitions = '
+    'Phase 1: BFS over histories of real step executions from one (thorough: '
+    'three) loaded dataset(s) (one to three gap-free stretches, three to '
+    'five storms); transitions = '
     'main(argv) of every step of the alphabet from every reachable state; '
     'states = canonical dumps of the SQLite file, deduplicated by hash.  '
     'Phase 2: for every (state, step) edge and every fault point of that '
@@ -60,13 +62,26 @@ DT = 3600
 MAX_DEPTH = 14
 
 
-def dataset():
+EVENTS = [
+    # two stretches (one missing sample), four storms
+    ([('dry', 2), ('storm', 2), ('dry', 5), ('storm', 1), ('dry', 6),
+      ('storm', 3), ('dry', 4), ('storm', 2), ('dry', 5)], [22]),
+    # three stretches, five storms, record starts in heavy rain
+    ([('storm', 1), ('dry', 4), ('storm', 3), ('dry', 6), ('storm', 2),
+      ('dry', 3), ('storm', 2), ('dry', 6), ('storm', 1), ('dry', 4)],
+     [8, 27]),
+    # one stretch, three storms, ends in a storm
+    ([('dry', 3), ('storm', 2), ('dry', 6), ('storm', 2), ('dry', 6),
+      ('storm', 3)], []),
+]
+DATASETS = {'quick': [0], 'thorough': [0, 1, 2]}
+
+
+def dataset(which=0):
     """Rain / level record: storms of heavy rain lifting the level by
-    10/Sy per step with Sy = 2, dry spells falling 1.5 mm per step; one
-    missing level sample splits the record into two stretches"""
-    events = [('dry', 2), ('storm', 2), ('dry', 5), ('storm', 1),
-              ('dry', 6), ('storm', 3), ('dry', 4), ('storm', 2),
-              ('dry', 5)]
+    10/Sy per step with Sy = 2, dry spells falling 1.5 mm per step; missing
+    level samples split the record into stretches"""
+    events, missing = EVENTS[which]
     rain = []
     z = [5.0]
     for kind, n in events:
@@ -81,7 +96,8 @@ def dataset():
             rain.append(1.0)
             z.append(z[-1] + 0.5)
     z = z[:len(rain)]
-    z[22] = None    # inside the third dry spell: two stretches
+    for k in missing:
+        z[k] = None
     et = [0.125 + 0.001 * k for k in range(len(rain) + 1)]
     return rain, z, et
 
@@ -107,9 +123,10 @@ ALPHABET = {
 
 
 def BOUND(tier):
-    return ('BFS to fixpoint (no new state) over the step alphabet %r; all '
-            'fault points of every (state, step) edge, modes raise and kill, '
-            'one fault per attempt' % (ALPHABET[tier],))
+    return ('BFS to fixpoint (no new state) from %d loaded dataset(s) over '
+            'the step alphabet %r; all fault points of every (state, step) '
+            'edge, modes raise and kill, one fault per attempt'
+            % (len(DATASETS[tier]), ALPHABET[tier]))
 
 
 def selftest():
@@ -152,10 +169,11 @@ def argv_of(step, path):
     return [a.replace('{db}', path) for a in STEPS_ALL[step]]
 
 
-def initial_state():
-    if () in _MEMO:
-        return _MEMO[()]
-    rain, z, et = dataset()
+def initial_state(which=0):
+    key = ('@%d' % which,)
+    if key in _MEMO:
+        return _MEMO[key]
+    rain, z, et = dataset(which)
     p, e, zz = records.make_texts(rain, z, DT, et=et)
     path = fresh_path()
     status, _, _, exc = cs.cli_load(path, p, e, zz)
@@ -165,8 +183,8 @@ def initial_state():
     with open(path, 'rb') as f:
         blob = f.read()
     cleanup(path)
-    _MEMO[()] = (h, blob)
-    return _MEMO[()]
+    _MEMO[key] = (h, blob)
+    return _MEMO[key]
 
 
 def materialise(blob):
@@ -182,6 +200,13 @@ def state_of(history):
     history = tuple(history)
     if history in _MEMO:
         return _MEMO[history]
+    if not history:
+        history = ('@0',)
+    if len(history) == 1:
+        if not history[0].startswith('@'):
+            raise InternalError('history %r does not start with a dataset'
+                                % (history,))
+        return initial_state(int(history[0][1:]))
     h, blob = state_of(history[:-1])
     path = materialise(blob)
     try:
@@ -335,7 +360,8 @@ def case_fault(case):
     if after == success and edge['ok'] and success != before:
         counters['faults_after_commit_point'] = 1
     return Result(viol=viol, nontrivial=edge['ok'], outcome=after,
-                  states=1, transitions=transitions, counters=counters,
+                  states=0 if after in (before, success) else 1,
+                  transitions=transitions, counters=counters,
                   obs={'status': status, 'point': label,
                        'state_after': after, 'before': before,
                        'success': success})
@@ -368,7 +394,7 @@ def independent(a, b):
     (today a second one always fails; if a refactoring gave them replace
     semantics, last-writer-wins would be legitimate)."""
     ka, kb = kind_of(a), kind_of(b)
-    if ka == kb:
+    if ka == kb or a.startswith('@') or b.startswith('@'):
         return False
     if kb in DEPENDS_ON.get(ka, ()) or ka in DEPENDS_ON.get(kb, ()):
         return False
@@ -401,11 +427,16 @@ def _bfs_job(job):
 def explore(tier, seed, jobs, t0, deadline_s, agg, per_space, capped):
     alphabet = ALPHABET[tier]
     ctx = multiprocessing.get_context('fork')
-    h0, blob0 = initial_state()
-    states = {h0: ()}            # hash -> canonical (first, BFS) history
-    by_set = {order_free_key(()): ((), h0)}
+    states = {}                  # hash -> canonical (first, BFS) history
+    by_set = {}
+    frontier = []
+    for which in DATASETS[tier]:
+        root = ('@%d' % which,)
+        h0, _blob0 = initial_state(which)
+        states[h0] = root
+        by_set[order_free_key(root)] = (root, h0)
+        frontier.append(root)
     edges = []                   # (history, step, ok, npoints, labels)
-    frontier = [()]
     depth = 0
     ts = time.time()
     n_edges = 0
@@ -502,7 +533,8 @@ def explore(tier, seed, jobs, t0, deadline_s, agg, per_space, capped):
     with ctx.Pool(jobs) as pool:
         engine.enumerate_spaces(pool, spaces, seed, jobs, t0, deadline_s,
                                 agg, per_space, capped, base_index=1)
-    labels = sorted({l.split(':')[0] for e in edges for l in (e[4] or [])})
+    labels = sorted({re.sub(r' row \d+', ' row', l.split(':')[0])
+                     for e in edges for l in (e[4] or [])})
     agg['counters']['fault_point_kinds:' + ','.join(labels)] = 1
     agg['counters']['max_fault_points_per_step'] = max(
         (e[3] or 0) for e in edges)
@@ -512,5 +544,5 @@ def explore(tier, seed, jobs, t0, deadline_s, agg, per_space, capped):
 def spaces(tier):
     # only used by the framework self-test
     return [Space('C20 explores through explore()', 1,
-                  lambda i: {'kind': 'edge', 'history': [], 'step':
+                  lambda i: {'kind': 'edge', 'history': ['@0'], 'step':
                              ALPHABET[tier][0]})]
